@@ -668,6 +668,12 @@ func genDescriptors(r *lib.Rand, out func(tcase)) {
 		for _, os_ := range stdOptSets {
 			if os_.opts&optDescriptor == 0 {
 				out(mk(os_.opts, d, "descriptor:disabled", &expect{Place: -1, Refuse: "descriptor-disabled"}))
+				// … also behind a time-zone prefix (the check must come after the prefix is stripped) and for @every
+				for _, pre := range []string{"TZ=Asia/Tokyo ", "CRON_TZ=UTC   ", "TZ=UTC ", "CRON_TZ=America/New_York "} {
+					out(mk(os_.opts, pre+d, "descriptor:disabled+tz", &expect{Place: -1, Refuse: "descriptor-disabled"}))
+					out(mk(os_.opts, pre+"@every 1s", "descriptor:disabled+tz", &expect{Place: -1, Refuse: "descriptor-disabled"}))
+				}
+				out(mk(os_.opts, "@every 90m", "descriptor:disabled", &expect{Place: -1, Refuse: "descriptor-disabled"}))
 				continue
 			}
 			e := &expect{Place: -1}
